@@ -240,16 +240,23 @@ def nat_sweep(seed, count, only=None):
     fails, ev = [], 0
     for it in range(count):
         asm = [(0,), (1,), (0, 1), (1, 0)][it % 4] if only is None else tuple(only)
-        n = int(rng.choice([1, 2, 7, 30]))
-        steps = int(rng.choice([1, 2, 3]))
+        n = int(rng.choice([1, 2, 7, 30])) if it % 16 != 9 else int(rng.choice([4096, 4500]))
+        steps = int(rng.choice([1, 2, 3])) if n < 4000 else 1
         custom = bool(rng.integers(2))
         phis = rng.random(len(asm)); phis /= phis.sum()
         st = M.StiffnessTensors()
         if custom:
             for nm in ("olivine", "enstatite"):
                 A_ = rng.normal(size=(6, 6))
-                setattr(st, nm, A_ @ A_.T + 50 * np.eye(6))
+                Cc = A_ @ A_.T + 50 * np.eye(6)
+                if it % 3 == 1:  # integer-valued tensor typed as integers (e.g. GPa values typed in by hand)
+                    Ai = rng.integers(-3, 4, size=(6, 6))
+                    Cc = (Ai @ Ai.T + 50 * np.eye(6, dtype=np.int64)).astype(np.int64)
+                elif it % 3 == 2:
+                    Cc = Cc.astype(np.float32)
+                setattr(st, nm, Cc)
         C = {0: np.array(st.olivine), 1: np.array(st.enstatite)}
+        C64 = {k: v.astype(np.float64) for k, v in C.items()}  # the values, whatever the dtype they were given in
         mins = []
         for ph in asm[::-1]:
             O = [R.random(n, random_state=int(rng.integers(1 << 30))).as_matrix().reshape(n, 3, 3) for _ in range(steps)]
@@ -268,7 +275,7 @@ def nat_sweep(seed, count, only=None):
             ref = np.zeros((steps, 6, 6))
             for i in range(steps):
                 for m in mins:
-                    C4 = T.voigt_to_elastic_tensor(keep[int(m.phase)])
+                    C4 = T.voigt_to_elastic_tensor(C64[int(m.phase)])
                     phi = phis[list(asm).index(int(m.phase))]
                     for g in range(n):
                         A = m.orientations[i][g]
@@ -283,7 +290,7 @@ def nat_sweep(seed, count, only=None):
             if not np.allclose(out, out.transpose(0, 2, 1), atol=1e-9 * sc):
                 msgs.append("not symmetric")
             for i in range(steps):
-                Kc = sum(phis[list(asm).index(p)] * np.trace(T.voigt_decompose(keep[p])[0]) / 9 for p in asm)
+                Kc = sum(phis[list(asm).index(p)] * np.trace(T.voigt_decompose(C64[p])[0]) / 9 for p in asm)
                 d, v = T.voigt_decompose(out[i])
                 if abs(np.trace(d) / 9 - Kc) > 1e-8 * sc:
                     msgs.append("bulk modulus depends on the texture")
